@@ -64,9 +64,9 @@ PROPS = {
     ),
     "C06": dict(
         module="SeliumModel.Props.C06",
-        suites=["wire", "codec"],
+        suites=["wire", "codec", "e2esub"],
         level="proof",
-        rule="every decoder is run in a child process under a 3 GiB address-space limit (panic and abort both observable) on random, truncated, bit-flipped and adversarial-length inputs: frame streams (wdec), batches (bdec), StringCodec, BytesCodec, BincodeCodec<T> for 9 types, 5 decompressors on damaged and random input; outcome (value / error / panic / abort) compared with the Lean model; distinct = distinct case lines",
+        rule="e2esub: a library Subscriber (string / bytes / bincode decoder, no compression or gzip / zlib / zstd / lz4 / brotli) fed Message / BatchMessage frames with valid, damaged and random payloads and unexpected frame kinds by a raw publisher through a real server; what it yields (values, error items, end of stream) compared with the Lean subscriber model (decompression results annotated per payload from the library itself); " + "every decoder is run in a child process under a 3 GiB address-space limit (panic and abort both observable) on random, truncated, bit-flipped and adversarial-length inputs: frame streams (wdec), batches (bdec), StringCodec, BytesCodec, BincodeCodec<T> for 9 types, 5 decompressors on damaged and random input; outcome (value / error / panic / abort) compared with the Lean model; distinct = distinct case lines",
         trusted_base=COMMON_TRUST + [
             "library decompressors (flate2, zstd, brotli, lz4_flex) return a value or an error on every input (hypothesis Compressor.Total; exercised in the guarded child, not proved)",
             "serde's Vec/HashMap visitors cap pre-allocation (size_hint::cautious) — bounded constant, outside the model",
